@@ -788,3 +788,15 @@ def _indent_after_continuation():
 
 
 INVALID += _indent_after_continuation()
+
+
+# block statements nested up to CPython's limit (20 loop / try / with blocks; `if` is not counted)
+def _nested_blocks():
+    out = []
+    for kw, n in (('while 1:', 19), ('while 1:', 20), ('for i in j:', 20), ('with a:', 20), ('if 1:', 20), ('if 1:', 26), ('for i in j:', 12)):
+        out.append(''.join(' ' * i + kw + '\n' for i in range(n)) + ' ' * n + 'pass\n')
+    out.append('def f():\n' + ''.join(' ' * (i + 1) + ('while 1:' if i % 2 else 'if 1:') + '\n' for i in range(22)) + ' ' * 23 + 'pass\n')
+    return out
+
+
+SEMANTIC += _nested_blocks()
